@@ -19,6 +19,18 @@ objcopy 2.40 as an independent transformer.  Dumps must equal the dump of the un
 
 Error classes (property text): CRC mismatch, bad declared size, unknown compression type ->
 ELFError or a subclass; bad .zdebug framing (magic, size, truncated) -> AssertionError or ELFError.
+A rejection may surface late (lazy decompression) but then as the data path's own error class, not as a parse error over
+accepted garbage; a checksum cannot be checked late.
+
+Deviations of the unchanged tree found by this check (fixes/C11-*.patch):
+ * zdebug-per-section: get_dwarf_info renames ALL section names to .z* once .zdebug_info exists: .gnu_debugaltlink is
+   looked up as .zgnu_debugaltlink (supplementary file silently not loaded: sup_loaded:{sup,chain}:altlink/plan=z,
+   corpus.sup_loaded:zdebug*:exe/sup); sections the GNU tools left as .debug_X because they do not shrink are not found
+   (dump:enc:nolink/plan=z_mixed, corpus.dump:zdebug-smaller:exe, objcopy.zlib-gnu); relocations of a relocatable file are
+   applied to the still compressed .zdebug bytes (corpus.exception:{zdebug,zdebug-smaller,split.zdebug}:rel -> zlib.error).
+ * compressed-size-too-small: Section.data() inflates at most ch_size bytes, so a declared size SMALLER than the inflated
+   size is accepted and the data silently truncated (rejected:enc:nolink/plan=gabi_smallsize).
+
 Not asserted: .eh_frame tables reached through a debug link in corpus/objcopy files (objcopy
 --only-keep-debug turns .eh_frame into NOBITS); whether the loader is consulted when links are not
 followed; an unstripped file with a wrong-CRC link (either answer, see Container.tla)."""
@@ -312,7 +324,7 @@ def _key(x):
     return core.digest(x)
 
 
-def run_spec_cases(run, res):
+def run_spec_cases(run, res, only_tag=None):
     layout = None
     imgs, cases, views = {}, {}, {}
     for ln in run.cases(res.out):
@@ -356,6 +368,8 @@ def run_spec_cases(run, res):
     for case in order:
         main, table, crc = build(case)
         tag = '%s:%s/plan=%s' % (case['fam'], case['sup'] if case['sup'] != 'none' else case['dl'] if case['dl'] != 'none' else 'nolink', case['plan'])
+        if only_tag is not None and tag != only_tag and not case['isref']:
+            continue
         brief = {'cfg': {k: case[k] for k in ('fam', 'cls', 'le', 'ver', 'fmt', 'plan', 'dl', 'home', 'sup', 'supplan', 'loader', 'follow')},
                  'expect': case['outcome'], 'main_b64': core.b64(main), 'files_b64': {k.decode(): core.b64(v) for k, v in table.items()}}
         nontrivial = case['plan'] not in ('plain', 'none') or case['dl'] != 'none' or case['sup'] != 'none'
@@ -608,7 +622,7 @@ def _strip_for_link(d):
     return {k: v for k, v in d.items() if k != 'ehcfi'}
 
 
-def run_corpus(run, layout, files, levels, objcopy):
+def run_corpus(run, layout, files, levels, objcopy, only=None):
     from elftools.elf.elffile import ELFFile  # noqa
     for rel, suprel in files:
         path = os.path.join(core.REPO, rel)
@@ -661,6 +675,8 @@ def run_corpus(run, layout, files, levels, objcopy):
         if objcopy:
             variants += _objcopy_variants(run, data, base, table, bool(sup), ref)
         for ttag, main, tab, use_loader, follow, want, mode in variants:
+            if only is not None and (rel, ttag) not in only:
+                continue
             tag = '%s:%s' % (ttag.split('/')[0], kind)
             brief = {'file': rel, 'transform': ttag, 'sup': suprel}
             run.count(_key([rel, ttag]), nontrivial=True,
@@ -735,6 +751,22 @@ def _objcopy_variants(run, data, base, table, use_loader, ref):
 
 
 # ------------------------------------------------------------------ entry point
+def replay(run, path):
+    """Re-run exactly the cases of one replay file (the images are regenerated by TLC, corpus files re-transformed)."""
+    import json
+    rec = json.load(open(path))
+    thorough = run.tier == 'thorough'
+    res = run.tlc('Container', 'Container_thorough' if thorough else 'Container_quick', workers=min(8, core.NPROC))
+    if rec['clause'].startswith('corpus.'):
+        layout = [ln for ln in run.cases(res.out) if ln['k'] == 'layout'][0]
+        only = {(m['case']['file'], m['case']['transform']) for m in [rec['first']] + rec.get('more', [])}
+        files = [f for f in CORPUS_THOROUGH if f[0] in {o[0] for o in only}]
+        run_corpus(run, layout, files, (0, 1, 6, 9), any(t.startswith('objcopy') for _f, t in only) and shutil.which('objcopy') is not None, only=only)
+    else:
+        run_spec_cases(run, res, only_tag=rec['tag'])
+    return run.finish()
+
+
 def check(run):
     run.rule = ('cases = (a) final states of the Container loading-pipeline machine: encoding plan (15: plain, SHF_COMPRESSED whole/partial/'
                 'multi-block/declared size too big/too small/bad type, .zdebug whole/multi-block/mixed/bad magic/size too big/too small/truncated) x class/byte order x DWARF '
